@@ -14,6 +14,7 @@ import (
 func init() {
 	rt.Register("C04_sixteenk", VerifHarness_C04_sixteenk)
 	rt.Register("C04_max_volumes", VerifHarness_C04_max_volumes)
+	rt.Register("C04_max_shards", VerifHarness_C04_max_shards)
 	rt.Register("C02_par1_garbage_parity", VerifHarness_C02_par1_garbage_parity)
 }
 
@@ -69,6 +70,32 @@ func VerifHarness_C04_max_volumes() {
 	s.fs.remove(s.paths[0])
 	res, err = verify(s.fs, p1Index, VerifyOptions{})
 	rt.Assert(err == nil && res.FileCounts.UsableParityFileCount == 1 && res.FileCounts.RepairPossible(), "one lost file, one volume left: repair is possible")
+	_, rerr := repair(s.fs, p1Index, RepairOptions{})
+	if rerr != errStubSingular {
+		rt.Assert(rerr == nil && s.intact(), "the remaining volume restores the file")
+	}
+}
+
+// The largest PAR1 sets the format allows: data files + volumes == 256
+// (157 files with 99 volumes), and one shard fewer as a control.
+func VerifHarness_C04_max_shards() {
+	nFiles := []int{157, 156}[rt.Choice("files", 2)]
+	names := make([]string, nFiles)
+	lens := make([]int, nFiles)
+	for i := range names {
+		names[i] = "f" + string(rune('0'+i/100)) + string(rune('0'+i/10%10)) + string(rune('0'+i%10))
+		lens[i] = 1
+	}
+	s := p1Build(names, lens, 99, false)
+	res, err := verify(s.fs, p1Index, VerifyOptions{})
+	rt.Assert(err == nil, "PAR1 Verify returns a result for a set with a valid index")
+	rt.Assert(res.FileCounts.UsableDataFileCount == nFiles && res.FileCounts.UsableParityFileCount == 99 && res.FileCounts.UnusableParityFileCount == 0, "usable parity volumes == present intact volumes")
+	for v := 1; v <= 98; v++ {
+		s.fs.remove(volPath2(v))
+	}
+	s.fs.remove(s.paths[nFiles-1])
+	res, err = verify(s.fs, p1Index, VerifyOptions{})
+	rt.Assert(err == nil && res.FileCounts.UsableParityFileCount == 1 && res.FileCounts.RepairPossible(), "one lost file, the last volume left: repair is possible")
 	_, rerr := repair(s.fs, p1Index, RepairOptions{})
 	if rerr != errStubSingular {
 		rt.Assert(rerr == nil && s.intact(), "the remaining volume restores the file")
